@@ -12,6 +12,14 @@ CLAIMED = {
          'Trusted: Coq kernel + vm_compute; hand-written model coq/C17/Model.v; correspondence harness props/C17.py; float rounding not '
          'modelled (1e-9 relative comparison, dyadic inputs so branch decisions are exact); no axioms (closed under the global context).',
          'DESIGN.md section 3 C17'),
+ 'C01': ('Coq proof of per-chemical conservation for mixing (single-phase receivers, any inlets/packages/phases, receiver among inlets), splitting, scaling, CAS remapping, SparseVector.mix_from + correspondence over real streams and 5 property packages',
+         'PARTIAL: mix_value is proved by induction over inlet lists for single-phase receivers (any number/kind/phase/package of inlets), '
+         'split_value, scale_value, remap and the sparse receiver-among-inlets accounting are proved; the multi-phase-receiver half of mix_value, '
+         'totality (mix_total), separate_restores and copy_remove are stated (Definition ..._statement), modelled and tied to the code by '
+         'correspondence, but not yet theorems.',
+         'Trusted: Coq kernel + vm_compute; hand-written model coq/C01/Model.v (of the repaired code); harness props/C01.py (index caches are '
+         'cleared before every operation, see ASSUMPTIONS); no axioms.',
+         'DESIGN.md section 3 C01, section 8'),
  'C19': ('Coq proof of Network.sort (permutation, topological order, quiet) + verified certificate checker evaluated in Coq on every observed Network.from_units result; correspondence for sort/PathSource',
          'Part 1: Network.sort is modelled loop for loop and proved for every path and every strict partial order reach (perm, topo, no '
          'warning, input-order independence). Part 2: a Gallina checker for complete from_units results with soundness theorems against the '
